@@ -49,6 +49,8 @@ func handle(c *Case) (out map[string]any) {
 		return wirePrim(c)
 	case "wire.script":
 		return wireScript(c)
+	case "wire.parse.script":
+		return wireParseScript(c)
 	case "bytes":
 		return bytesCodec(c)
 	case "ser":
